@@ -95,6 +95,9 @@ func loadBases(repo string, thorough bool) []baseDoc {
 	if d, err := docmodel.Parse([]byte(grammar.CustomSpec)); err == nil {
 		out = append(out, baseDoc{"custom-unmarshalers (internal/grammar)", d})
 	}
+	if d, err := docmodel.Parse([]byte(grammar.RecursiveDefaultsSpec)); err == nil {
+		out = append(out, baseDoc{"recursive schemas in default responses (internal/grammar)", d})
+	}
 	if d, err := docmodel.Parse([]byte(grammar.RefsSpec)); err == nil {
 		out = append(out, baseDoc{"every component kind reached through references (internal/grammar)", d})
 	}
